@@ -1260,3 +1260,131 @@ Proof.
   intros H. destruct (server_one_reply _ _ _ _ H) as (A & B & C & D & E).
   repeat (split; [assumption|]). intros l ev k i svc meth q. exact (dispatch_origin _ _ _ _ l ev k i svc meth q H).
 Qed.
+
+(* ------------------------------------------------------------------ tags identify calls: a call without a closure runs nothing *)
+(* every call kept by the channel was handed over by an LFetch label of the past *)
+Definition linv (pastl : list label) (s : state) : Prop :=
+  (forall i c, lookup i (outs s) = Some c -> exists t, In (LFetch t c) pastl) /\
+  (forall t i c, tget t (threads s) = TFetched i c -> In (LFetch t c) pastl).
+
+Lemma linv_init svcs : linv [] (init svcs).
+Proof. split; cbn; intros; discriminate. Qed.
+
+Lemma linv_step pastl s l s' ev : linv pastl s -> step s l = Some (s', ev) -> linv (pastl ++ [l]) s'.
+Proof.
+  intros [HO HT] H.
+  assert (forall i c, lookup i (outs s) = Some c -> exists t, In (LFetch t c) (pastl ++ [l])) as HO'.
+  { intros i c Hl. destruct (HO _ _ Hl) as [t Ht]. exists t. apply in_or_app. auto. }
+  assert (forall t i c, tget t (threads s) = TFetched i c -> In (LFetch t c) (pastl ++ [l])) as HT'.
+  { intros t i c Hg. apply in_or_app. left. eapply HT; eauto. }
+  destruct l as [t d|t|t|i b|r|k m|i].
+  - apply step_fetch in H. destruct H as (_ & -> & _). split; cbn [outs threads]; [exact HO'|].
+    intros u i c. rewrite tget_tset. destruct (Nat.eq_dec t u) as [->|Hne]; intros Hu; [|apply (HT' _ _ _ Hu)].
+    inversion Hu; subst. apply in_or_app. right. left. reflexivity.
+  - apply step_register in H. destruct H as (i & d & Hg & -> & _). split; cbn [outs threads].
+    + intros j c. destruct (Z.eq_dec i j) as [->|Hne].
+      * rewrite lookup_insert_same. intros E; inversion E; subst. exists t. apply (HT' _ _ _ Hg).
+      * rewrite lookup_insert_other by exact Hne. apply HO'.
+    + intros u j c. rewrite tget_tset. destruct (Nat.eq_dec t u) as [->|Hne]; intros Hu; [discriminate|apply (HT' _ _ _ Hu)].
+  - apply step_send in H. destruct H as (i & d & Hg & -> & _). split; cbn [outs threads]; [exact HO'|].
+    intros u j c. rewrite tget_tset. destruct (Nat.eq_dec t u) as [->|Hne]; intros Hu; [discriminate|apply (HT' _ _ _ Hu)].
+  - apply step_response in H. destruct H as (_ & [(d & Hl & -> & _)|(_ & -> & _)]); [|split; assumption].
+    split; cbn [outs threads]; [|exact HT'].
+    intros j c. destruct (Z.eq_dec i j) as [->|Hne]; [rewrite lookup_remove_same; discriminate|].
+    rewrite lookup_remove_other by exact Hne. apply HO'.
+  - apply step_request in H. destruct H as [(e & _ & -> & _)|(q & _ & -> & _)]; split; assumption.
+  - apply step_done in H. destruct H as (i & _ & -> & _). split; assumption.
+  - apply step_other in H. destruct H as (-> & _). split; assumption.
+Qed.
+
+Lemma in_run_complete_done c sn d b : In (ERun c sn) (complete d b) -> c_done d = true.
+Proof.
+  unfold complete. destruct (c_resp d), (c_done d); cbn; intros H; try reflexivity;
+    repeat (destruct H as [H|H]; try discriminate); contradiction.
+Qed.
+
+(* a closure that runs belongs to a call that was fetched earlier in the history and has a closure *)
+Lemma run_from_fetched pastl s ls s' tr :
+  linv pastl s -> exec s ls = Some (s', tr) ->
+  forall l ev tg sn, In (l, ev) tr -> In (ERun tg sn) ev ->
+  exists t d, In (LFetch t d) (pastl ++ ls) /\ c_tag d = tg /\ c_done d = true.
+Proof.
+  revert pastl s tr. induction ls as [|l0 r IH]; intros pastl s tr Hl H l ev tg sn Hin Hrun.
+  - inversion H; subst. destruct Hin.
+  - apply exec_cons in H. destruct H as (s1 & ev0 & tr' & Hs & He & ->).
+    destruct Hin as [E|Hin].
+    + inversion E; subst l0 ev0. destruct l as [t d|t|t|i b|q|k m|i].
+      * apply step_fetch in Hs. destruct Hs as (_ & _ & ->). destruct Hrun as [E'|[]]; discriminate.
+      * apply step_register in Hs. destruct Hs as (i & d & _ & _ & ->). destruct Hrun as [E'|[]]; discriminate.
+      * apply step_send in Hs. destruct Hs as (i & d & _ & _ & ->). destruct Hrun as [E'|[]]; discriminate.
+      * apply step_response in Hs. destruct Hs as (_ & [(d & Hlk & _ & ->)|(_ & _ & ->)]); [|destruct Hrun].
+        destruct (proj1 Hl _ _ Hlk) as [t Ht]. exists t, d. split; [apply in_or_app; auto|].
+        split; [symmetry; exact (proj1 (in_run_complete _ _ _ _ Hrun))|exact (in_run_complete_done _ _ _ _ Hrun)].
+      * apply step_request in Hs. destruct Hs as [(e & _ & _ & ->)|(q0 & _ & _ & ->)]; destruct Hrun as [E'|[]]; discriminate.
+      * apply step_done in Hs. destruct Hs as (i & _ & _ & ->). destruct Hrun as [E'|[]]; discriminate.
+      * apply step_other in Hs. destruct Hs as (_ & ->). destruct Hrun.
+    + destruct (IH (pastl ++ [l0]) s1 tr' (linv_step _ _ _ _ _ Hl Hs) He l ev tg sn Hin Hrun) as (t & d & Hf & Ht & Hd).
+      exists t, d. rewrite <- app_assoc in Hf. auto.
+Qed.
+
+Lemma exec_linv pastl s ls s' tr : linv pastl s -> exec s ls = Some (s', tr) -> linv (pastl ++ ls) s'.
+Proof.
+  revert pastl s tr. induction ls as [|l r IH]; intros pastl s tr Hl H.
+  - inversion H; subst. rewrite app_nil_r. exact Hl.
+  - apply exec_cons in H. destruct H as (s1 & ev & tr' & Hs & He & _).
+    change (l :: r) with ([l] ++ r). rewrite app_assoc. eapply IH; [|exact He]. eapply linv_step; eauto.
+Qed.
+
+(* with pairwise distinct tags, two LFetch labels with the same tag carry the same call *)
+Lemma fetch_tag_injective ls t1 c1 t2 c2 :
+  NoDup (fetch_tags ls) -> In (LFetch t1 c1) ls -> In (LFetch t2 c2) ls -> c_tag c1 = c_tag c2 -> c1 = c2.
+Proof.
+  induction ls as [|l r IH]; intros Hnd H1 H2 Ht; [destruct H1|].
+  rewrite fetch_tags_cons in Hnd.
+  assert (forall t c, In (LFetch t c) r -> In (c_tag c) (fetch_tags r)) as Hin.
+  { intros t c Hi. unfold fetch_tags. apply in_flat_map. exists (LFetch t c). split; [exact Hi|left; reflexivity]. }
+  destruct H1 as [->|H1], H2 as [E|H2].
+  - inversion E. reflexivity.
+  - exfalso. eapply (NoDup_app_disj _ _ (c_tag c1) Hnd); [left; reflexivity|rewrite Ht; eauto].
+  - subst l. exfalso. eapply (NoDup_app_disj _ _ (c_tag c2) Hnd); [left; reflexivity|rewrite <- Ht; eauto].
+  - apply (IH (NoDup_app_tail _ _ Hnd) H1 H2 Ht).
+Qed.
+
+Lemma no_closure_never_runs svcs l1 l2 s1 tr1 s' tr i c :
+  exec (init svcs) l1 = Some (s1, tr1) ->
+  lookup i (outs s1) = Some c ->
+  exec (init svcs) (l1 ++ l2) = Some (s', tr) ->
+  NoDup (fetch_tags (l1 ++ l2)) ->
+  c_done c = false ->
+  count_occ Nat.eq_dec (run_tags (events tr)) (c_tag c) = 0%nat.
+Proof.
+  intros H1 Hl H Hnd Hd.
+  apply count_occ_not_In. intros Hin.
+  unfold run_tags, events in Hin. apply in_flat_map in Hin. destruct Hin as (e & He & Hin).
+  apply in_flat_map in He. destruct He as ([l ev] & Hle & Hev). cbn [snd] in Hev.
+  destruct e as [? ? ?|? ? ?|? ? ? ?|tg sn|?|?|? ? ? ? ?|? ?|?|?]; try (destruct Hin; fail).
+  destruct Hin as [E|[]]. subst tg.
+  destruct (run_from_fetched [] _ _ _ _ (linv_init svcs) H l ev (c_tag c) sn Hle Hev) as (t & d & Hf & Ht & Hdd).
+  cbn [app] in Hf.
+  destruct (proj1 (exec_linv [] _ _ _ _ (linv_init svcs) H1) _ _ Hl) as [t' Hf'].
+  cbn [app] in Hf'.
+  assert (d = c) as ->.
+  { eapply fetch_tag_injective; [exact Hnd|exact Hf|apply in_or_app; left; exact Hf'|exact Ht]. }
+  congruence.
+Qed.
+
+Lemma once_if_answered_exact svcs l1 l2 s1 tr1 s' tr i c :
+  exec (init svcs) l1 = Some (s1, tr1) ->
+  lookup i (outs s1) = Some c ->
+  exec (init svcs) (l1 ++ l2) = Some (s', tr) ->
+  (exists b, In (LResponse i b) l2) ->
+  NoDup (fetch_tags (l1 ++ l2)) ->
+  count_occ Nat.eq_dec (run_tags (events tr)) (c_tag c) = (if c_done c then 1 else 0)%nat /\
+  count_occ Nat.eq_dec (del_tags (events tr)) (c_tag c) = 1%nat.
+Proof.
+  intros H1 Hl H Hb Hnd. split.
+  - destruct (c_done c) eqn:Hd.
+    + exact (once_if_answered _ _ _ _ _ _ _ _ _ H1 Hl H Hb Hnd Hd).
+    + exact (no_closure_never_runs _ _ _ _ _ _ _ _ _ H1 Hl H Hnd Hd).
+  - exact (deleted_once_if_answered _ _ _ _ _ _ _ _ _ H1 Hl H Hb Hnd).
+Qed.
